@@ -145,6 +145,8 @@ class Observer:
             return True
         if (b, j, a) in v.attempts:
             return True
+        if job['state'] == 'Pending':
+            return False        # the schedulers select Ready jobs; a job never goes back to Pending between the SELECT and the message
         if ws[0] == 'schedule':
             # the pool scheduler picks instances from healthy_instances_by_free_cores: activated ones (an instance can be deactivated
             # or deleted between the choice and the CALL, it cannot be 'pending' again)
@@ -437,6 +439,17 @@ def c02(obs: Observer):
         return ('by-date-usage-differs', f'sum over days of aggregated_..._by_date_v3{k} = {haved.get(k, 0)}, expected {wantbp.get(k, 0)}')
     if obs.op == 'compact':
         obs.tag('compaction')
+        if obs.prev is not None:
+            per: Dict[Any, set] = {}
+            for r in obs.prev.T['aggregated_billing_project_user_resources_v3']:
+                per.setdefault((r['billing_project'], r['user'], r['resource_id']), set()).add(r['token'])
+            if any(0 in t and len(t) > 1 for t in per.values()):
+                # a key that already holds a token-0 row (an earlier compaction, or the trigger's random token was 0) gained usage on other
+                # tokens and is compacted AGAIN
+                obs.tag('compaction-merges-into-existing-token-0-row')
+                obs.state['recompactions'] = obs.state.get('recompactions', 0) + 1
+                if obs.state['recompactions'] >= 2:
+                    obs.tag('compaction-merges-into-existing-token-0-row:>=2-times')
         bad = [r for r in v.T['aggregated_billing_project_user_resources_v3'] + v.T['aggregated_billing_project_user_resources_by_date_v3']
                if r['token'] != 0]
         if bad and obs.ans == 'ok 0':
@@ -470,6 +483,11 @@ def scenario_tags(obs: 'Observer'):
     """distribution only: which of the message-race scenarios this op is"""
     p = obs.prev
     ws = obs.op.split()
+    if ws[0] == 'complete' and ws[3] != 'N' and ws[4] != 'N':
+        inst = p.instances.get(f'inst{ws[4]}')
+        if (int(ws[1]), int(ws[2]), f'att{ws[3]}') not in p.attempts and inst is not None and inst['state'] in ('inactive', 'deleted') \
+                and (int(ws[1]), int(ws[2]), f'att{ws[3]}') in obs.cur.attempts:
+            obs.tag('attempt-first-recorded-on-dead-instance')
     if ws[0] in ('unschedule', 'schedule', 'started', 'creating') and len(ws) > 4:
         k = (int(ws[1]), int(ws[2]))
         o = p.jobs.get(k)
@@ -486,6 +504,14 @@ def scenario_tags(obs: 'Observer'):
                 obs.tag('unschedule-of-current-attempt')
         if ws[0] in ('schedule', 'started') and rec is None and o['state'] in ('Running', 'Creating') and o['attempt_id'] != att:
             obs.tag('second-attempt-of-running-job')
+        if ws[0] == 'schedule' and rec is not None and o['attempt_id'] == att and o['state'] in TERMINAL:
+            obs.tag('schedule-after-complete-same-attempt')
+        if ws[0] == 'schedule' and rec is not None and rec['end_time'] is not None and o['state'] == 'Ready':
+            obs.tag('schedule-after-unschedule-same-attempt')
+        if rec is None and ws[0] in ('schedule', 'started'):
+            inst = p.instances.get(f'inst{ws[4]}')
+            if inst is not None and inst['state'] in ('inactive', 'deleted') and (k[0], k[1], att) in obs.cur.attempts:
+                obs.tag('attempt-first-recorded-on-dead-instance')
         if ws[0] == 'schedule' and o['state'] == 'Creating' and o['attempt_id'] == att:
             obs.tag('schedule-of-creating-job')
             if not o['always_run'] and p.group_cancelled(k[0], o['job_group_id']):
@@ -583,6 +609,17 @@ def _wf_parents(v: View, j) -> Optional[List[dict]]:
 
 def c05(obs: Observer):
     p, v = obs.prev, obs.cur
+    ws = obs.op.split()
+    if ws[0] == 'insertJobs' and obs.ans == 'ok 0':
+        u = v.updates.get((int(ws[1]), int(ws[2])))
+        for t in ws[4:]:
+            f = t.split(';')
+            absp = [int(x) for x in f[1].split(',') if x]
+            if u and any(x >= u['start_job_id'] for x in absp):
+                # an earlier job of the SAME update named by absolute id (the legacy `parent_ids` form; in update 1 every absolute parent is one)
+                obs.tag('absolute-parent-inside-own-update' + (':update-1' if u['update_id'] == 1 else ''))
+                if any(x for x in f[2].split(',') if x):
+                    obs.tag('absolute-and-relative-parents-mixed')
     for k, j in v.jobs.items():
         if not v.committed(j['batch_id'], j['update_id']):
             continue
@@ -592,6 +629,9 @@ def c05(obs: Observer):
             continue
         if ps:
             obs.tag('job-with-parents')
+            u = v.updates.get((j['batch_id'], j['update_id']))
+            if u and any(u['start_job_id'] <= x['job_id'] for x in ps):
+                obs.tag('job-with-parents-inside-own-update')
         live = [x for x in ps if x['state'] not in TERMINAL]
         if j['state'] != 'Pending' and live:
             return (_name_class(obs, 'job-left-pending-before-parents-finished', k),
@@ -925,6 +965,8 @@ def c09(obs: Observer):
 
 def c10(obs: Observer):
     v = obs.cur
+    if obs.prev is not None:
+        scenario_tags(obs)
     used: Dict[str, int] = {}
     for a in v.attempts.values():
         if a['end_time'] is None and a['instance_name'] is not None:
